@@ -1,13 +1,19 @@
+//go:build !verif
 // +build !verif
 
 package tcp
 
-import "time"
+import (
+	"time"
+
+	"github.com/brewlin/net-protocol/pkg/sleep"
+)
 
 type timerVerif struct{}
 
 // verifArm is the identity outside verification builds.
 func (t *timer) verifArm(d time.Duration) time.Duration { return d }
 
-// verifStretch is the identity outside verification builds.
-func verifStretch(d time.Duration) time.Duration { return d }
+// verifAdopt and verifRestretch do nothing outside verification builds.
+func verifAdopt(t *time.Timer, d time.Duration, w *sleep.Waker) {}
+func verifRestretch(t *time.Timer, d time.Duration)             {}
